@@ -198,6 +198,9 @@ class State:
             parts = var_name.split(".")
             if var_name in cls.notify_var_last:
                 notify_vars[var_name] = cls.notify_var_last[var_name]
+            elif len(parts) == 3 and parts[2] != "old" and f"{parts[0]}.{parts[1]}" in notify_vars:
+                # an attribute of the entity this event is about: from the event's own value
+                notify_vars[var_name] = getattr(notify_vars[f"{parts[0]}.{parts[1]}"], parts[2], None)
             elif len(parts) == 3 and f"{parts[0]}.{parts[1]}" in cls.notify_var_last:
                 notify_vars[var_name] = getattr(
                     cls.notify_var_last[f"{parts[0]}.{parts[1]}"], parts[2], None
